@@ -36,10 +36,15 @@ def gen_arrays(rng, nsheps, n):
         if d in (3, 4, 5, 6, 7) and rng.chance(1, 2):
             # DIST kinds: aim at the slack rule (segment_bytes - segment_size*unit_size around 4)
             sb0 = (segpages or 16) * PAGES
-            cands = [(kk, r) for r in range(0, 7) for kk in range(2, 200) if (sb0 - r) % kk == 0 and (sb0 - r) // kk >= 1]
-            kk, r = rng.choice(cands)
-            obj = (sb0 - r) // kk       # segment_bytes - segment_size*unit_size == r exactly
-            tight = 1
+            if rng.chance(1, 3):
+                # unit sizes that are whole pages (the segment trimming rule has its own branch for them)
+                obj = PAGES * rng.choice([1, 2, 2, 3, 4, 4, 8, 16])
+                tight = rng.below(2)
+            else:
+                cands = [(kk, r) for r in range(0, 7) for kk in range(2, 200) if (sb0 - r) % kk == 0 and (sb0 - r) // kk >= 1]
+                kk, r = rng.choice(cands)
+                obj = (sb0 - r) // kk       # segment_bytes - segment_size*unit_size == r exactly
+                tight = 1
         us, sb, ss = approx_layout(obj, d, tight, segpages)
         if ss < 1:
             continue            # DIST kinds with no room for an element: outside the property (DESIGN C17)
